@@ -300,6 +300,13 @@ class Prov:
             for r in rets:
                 if isinstance(r.value, ast.Tuple) and len(r.value.elts) == n:
                     out |= self.origin(r.value.elts[i], FCtx(g, g.cls), depth + 1, ch + ("-> %s[%d]" % (g.qualname, i),))
+                    continue
+                # a record (NamedTuple / dataclass) construction: its i-th field
+                from . import records as _R
+
+                cs = _R.components(self.prog, g.module, r.value) if isinstance(r.value, ast.Call) else None
+                if cs is not None and len(cs) == n and _R.fields_of(self.prog, g.module, r.value.func) is not None:
+                    out |= self.origin(cs[i], FCtx(g, g.cls), depth + 1, ch + ("-> %s[%d]" % (g.qualname, i),))
                 else:
                     return None
         return out
